@@ -1,9 +1,9 @@
 package checks
 
 import (
-	"math/big"
 	"bytes"
 	"fmt"
+	"math/big"
 
 	"github.com/cuteLittleDevil/go-jt808/protocol/jt808"
 
